@@ -7,6 +7,8 @@ string or {'id':…, 'vt':…, 'meta':…} for a Node object.
 """
 from __future__ import annotations
 
+import hashlib
+
 import json
 
 from harness.core import hx, hxedges, hxlist, hxlistlist, setup_repo_path
@@ -90,6 +92,9 @@ def is_ts(g) -> bool:
 def _endpoint(g, e):
     if isinstance(e, str):
         return e
+    if e.get('plain'):
+        # a node object of the BASE class handed to whichever graph class: the graph converts it, attributes included
+        return Node(e['id'], meta=e.get('meta') if e.get('meta') else None, variable_type=NodeVariableType(e.get('vt', 'unspecified')))
     return _mk_node(g, e['id'], e.get('meta'), e.get('vt', 'unspecified'))
 
 
@@ -154,8 +159,47 @@ def op_line(slot: str, op) -> str:
     raise ValueError(f'unknown op {op!r}')
 
 
+def _stale_nodes(g):
+    """first-seen Node object per identifier (kept across deletion / replacement: such an object is STALE later on)"""
+    d = getattr(g, '_verif_stale_nodes', None)
+    if d is None:
+        d = {}
+        try:
+            g._verif_stale_nodes = d
+        except Exception:  # noqa: BLE001
+            pass
+    return d
+
+
+def node_arg(g, name, op, pos):
+    """how the caller names an existing node: mostly by identifier, sometimes by the graph's own Node object or by a Node
+    object obtained earlier (possibly invalidated since).  Deterministic in the call; the model sees the identifier."""
+    if not isinstance(name, str):
+        return name
+    h = int(hashlib.sha1(repr((op, pos)).encode()).hexdigest(), 16) % 7
+    try:
+        if h == 0 and g.node_exists(name):
+            return g.get_node(name)
+        if h == 1 and name in _stale_nodes(g):
+            return _stale_nodes(g)[name]
+    except Exception:  # noqa: BLE001
+        pass
+    return name
+
+
 def apply_op(g, op) -> str:
     """Run the operation on the real graph; reply 'ok' or 'err <ExceptionClass>'."""
+    r = _apply_op(g, op)
+    try:
+        st = _stale_nodes(g)
+        for n in g.get_nodes():
+            st.setdefault(n.identifier, n)
+    except Exception:  # noqa: BLE001
+        pass
+    return r
+
+
+def _apply_op(g, op) -> str:
     k = op[0]
     try:
         if k == 'add_node':
@@ -180,17 +224,19 @@ def apply_op(g, op) -> str:
                 e = Edge(a, b, edge_type=EdgeType(op[3]), meta=op[4] if op[4] else None)
             g.add_edge(edge=e, validate=op[5])
         elif k == 'delete_edge':
-            g.delete_edge(op[1], op[2], edge_type=None if op[3] is None else EdgeType(op[3]))
+            g.delete_edge(node_arg(g, op[1], op, 1), node_arg(g, op[2], op, 2),
+                          edge_type=None if op[3] is None else EdgeType(op[3]))
         elif k == 'remove_edge':
-            g.remove_edge(op[1], op[2], edge_type=None if op[3] is None else EdgeType(op[3]))
+            g.remove_edge(node_arg(g, op[1], op, 1), node_arg(g, op[2], op, 2),
+                          edge_type=None if op[3] is None else EdgeType(op[3]))
         elif k == 'remove_edge_by_pair':
             g.remove_edge_by_pair((op[1], op[2]), edge_type=None if op[3] is None else EdgeType(op[3]))
         elif k == 'delete_node':
-            g.delete_node(op[1])
+            g.delete_node(node_arg(g, op[1], op, 1))
         elif k == 'remove_node':
-            g.remove_node(op[1])
+            g.remove_node(node_arg(g, op[1], op, 1))
         elif k == 'change_edge_type':
-            g.change_edge_type(op[1], op[2], et_arg(op[3], op))
+            g.change_edge_type(node_arg(g, op[1], op, 1), node_arg(g, op[2], op, 2), et_arg(op[3], op))
         elif k == 'replace_edge':
             g.replace_edge(op[1], op[2], op[3], op[4], edge_type=None if op[5] is None else et_arg(op[5], op),
                            meta=op[6])
@@ -357,6 +403,7 @@ def _snapshot(g):
                 pass
         extra['at_lag'] = {str(l): sorted(x.identifier for x in g.get_nodes_at_lag(l)) for l in sorted(lags)}
         extra['for_var'] = {v: sorted(x.identifier for x in g.get_nodes_for_variable_name(v)) for v in extra['vars']}
+    extra['empty'] = _safe(g.is_empty)
     return {'nodes': nodes, 'edges': edges, 'pc': pc, 'meta': cj(g.meta), 'extra': extra}
 
 
